@@ -47,7 +47,7 @@ PUNCT_CATS = dict(leaf=[',', 'conj', '.', ';', ':', 'LRB'], node=['NP\\NP', 'S[d
 VARIANT = [None]
 
 
-def build(d, lang, shape, focus, n, labels=0, prefix='t', leaf=0, heads='sym', alpha=None):
+def build(d, lang, shape, focus, n, labels=0, prefix='t', leaf=0, heads='sym', alpha=None, rotate=0):
     """tree with the attributes in `focus` symbolic on leaf `leaf`"""
     al = alpha or AL
 
@@ -60,7 +60,11 @@ def build(d, lang, shape, focus, n, labels=0, prefix='t', leaf=0, heads='sym', a
         if key == 'word':
             continue
         attrs[key] = (lambda key: (lambda dd, name, i: dd.string(name, n, al) if i == leaf else {'lemma': 'l', 'pos': 'P', 'entity': 'O', 'chunk': 'I', 'base': 'b', 'pos1': 'q', 'inflectionForm': 'f'}.get(key, 'x') + str(i)))(key)
-    tb = TreeBuilder(d, lang, word=word, attrs=attrs, heads=heads, labels=labels, prefix=prefix, cats=(PUNCT_CATS if VARIANT[0] == 'punct' and lang == 'en' else None))
+    cats = PUNCT_CATS if VARIANT[0] == 'punct' and lang == 'en' else None
+    if rotate:
+        base = cats or (trees.EN_CATS if lang == 'en' else trees.JA_CATS)
+        cats = dict(leaf=base['leaf'][rotate:] + base['leaf'][:rotate], node=base['node'][rotate:] + base['node'][:rotate])
+    tb = TreeBuilder(d, lang, word=word, attrs=attrs, heads=heads, labels=labels, prefix=prefix, cats=cats)
     return tb.build(shape)
 
 
@@ -69,7 +73,7 @@ def results_for(d, lang, shape, focus, n, labels=0, alpha=None):
     from depccg.tree import ScoredTree
     from checks.c18 import _Again
     t1 = build(d, lang, shape, focus, n, labels, 'a', alpha=alpha)
-    t2 = build(_Again(d), lang, shape, focus, n, labels + 1, 'a', heads=False, alpha=alpha)
+    t2 = build(_Again(d), lang, shape, focus, n, labels + 1, 'a', heads=False, alpha=alpha, rotate=1)     # same tokens, other categories
     t3 = build(d, lang, SHAPES[1][1], (), 0, labels + 2, 'c', alpha=alpha)
     return [[ScoredTree(t1, -1.5), ScoredTree(t2, -2.25)], [ScoredTree(t3, -0.5)]], [(1, t1), (1, t2), (2, t3)]
 
